@@ -27,6 +27,12 @@ func (SvStr) SafeValue() {}
 type RegInt int
 type RegStr string
 
+// a composite type registered as a whole (its element type, not *RegSt)
+type RegSt struct {
+	N string
+	V int
+}
+
 // ---------- containers ----------
 type St2 struct {
 	A interface{}
